@@ -131,6 +131,27 @@ def check_case(case):
     content = dec_content(case['content'])
     kw = dict(case['kw'])
     fn = getattr(segno, case['fn'])
+    if case['fn'] == 'make_sequence':
+        # every symbol of a sequence is a returned symbol, too
+        try:
+            seq = call(lambda: list(fn(content, **kw)))
+        except Refused:
+            return Outcome((), ('refused',), False, True)
+        except Crash as ex:
+            return Outcome([Dev('C02/crash-' + ex.key, str(ex))], ('crash',), True)
+        devs = []
+        for qr in seq:
+            sd, info = structural_devs('C02', qr)
+            devs += sd
+            if info:
+                try:
+                    d = R.decode(matrix_of(qr))
+                    if (d['level'], d['mask']) != (info[1], info[2]):
+                        devs.append(Dev('C02/format-decoded', 'format bits decode to %s/%s, object reports %s/%s'
+                                        % (d['level'], d['mask'], info[1], info[2])))
+                except R.SymbolError as ex:
+                    devs.append(Dev('C02/undecodable', str(ex)))
+        return Outcome(devs, ('sequence', 'symbols-%d' % min(len(seq), 3)), True)
     try:
         qr = call(fn, content, **kw)
     except Refused as ex:
@@ -177,8 +198,24 @@ def check_case(case):
     return Outcome(devs, labels, nontrivial=True)
 
 
+def sequence_cases(tier, seed):
+    cases = []
+    for i in range(60 if tier == 'quick' else 600):
+        h = _rnd(seed, 'seq', i)
+        n = 5 + h % 90
+        alpha = ('0123456789', 'ABCDEFGH 0123$%', 'abcdefgh,;xyz')[(h >> 8) % 3]
+        text = ''.join(alpha[_rnd(seed, 'seq', i, k) % len(alpha)] for k in range(n))
+        kw = {'symbol_count': 2 + (h >> 12) % 5} if (h >> 16) % 2 else {'version': 1 + (h >> 12) % 3}
+        if (h >> 20) % 2:
+            kw['error'] = 'LMQH'[(h >> 21) % 4]
+        if (h >> 24) % 3 == 0:
+            kw['boost_error'] = False
+        cases.append({'fn': 'make_sequence', 'content': enc_content(text), 'kw': kw})
+    return cases
+
+
 def required_labels(tier):
-    return ['triple', 'M1', 'M2', 'M3', 'M4', 'v1-9', 'v10-26', 'v27-40']
+    return ['sequence', 'triple', 'M1', 'M2', 'M3', 'M4', 'v1-9', 'v10-26', 'v27-40']
 
 
 def phases(tier, seed):
@@ -186,5 +223,7 @@ def phases(tier, seed):
     return [
         Enum('triples', lambda: triple_cases(tier, seed), exhaustive=True,
              note='all 44 versions x supported levels x 8/4 masks = 1312 triples, several contents each'),
+        Enum('sequences', lambda: sequence_cases(tier, seed), exhaustive=False,
+             note='Structured Append sequences: the metadata of every symbol against its matrix'),
         Search('free', gens.make_cases(big=0.05), n),
     ]
